@@ -135,6 +135,15 @@ func (am *assetMgr) loadAsset(logger *slog.Logger, mpdPath string) error {
 	}
 	md.Dur = mpd.MediaPresentationDuration.String()
 	asset.MPDs[mpdName] = md
+	loaded := false
+	defer func() {
+		if !loaded { // Do not offer an MPD whose representations could not all be loaded
+			delete(asset.MPDs, mpdName)
+			if len(asset.MPDs) == 0 {
+				delete(am.assets, assetPath)
+			}
+		}
+	}()
 
 	fillContentTypes(assetPath, mpd.Periods[0])
 
@@ -169,6 +178,7 @@ func (am *assetMgr) loadAsset(logger *slog.Logger, mpdPath string) error {
 			}
 		}
 	}
+	loaded = true
 	logger.Info("Asset MPD loaded")
 	return nil
 }
